@@ -129,4 +129,25 @@ theorem wireVals_count_kind {g : Geo} (hl : ∀ w, 0 < g.len w) {id : Nat} {u : 
     rw [if_neg (by simp [h0, h1])]
     exact calculate_count_c2c_total g.tol _ hL hn (by positivity)
 
+/-- more generally: once the axis-level calculation of a chop that preserves the cell-to-cell ratio has returned a count
+    and a positive ratio — whatever the kind of the chop, with whatever validated solver answers — every evaluation of its
+    copies on every wire of positive length succeeds -/
+theorem wireVals_c2c_total {g : Geo} (hl : ∀ w, 0 < g.len w) {id : Nat} {u : UChop} {res : Vals} {n : ℕ} {c : ℚ}
+    (hu : g.uchops[id]? = some u) (hp : u.preserve = .c2c) (h0 : 0 < u.ratio) (h1 : u.ratio ≤ 1)
+    (hres : resolved g id = .ok res) (hc : res.count = some n) (hn : 1 ≤ n) (hcc : res.c2c = some c) (hc0 : 0 < c)
+    (inv : Bool) (w : Nat) : ∃ v, wireVals g id inv w = .ok v := by
+  obtain ⟨hh0, hh1⟩ := held_c2c hu hp hres hc hn hcc (ne_of_gt hc0)
+  have hL : 0 < g.len w * u.ratio := mul_pos (hl w) h0
+  cases inv with
+  | false =>
+    rw [wireVals_eq hu hh0]
+    unfold evalOn
+    rw [if_neg (by simp [h0, h1])]
+    exact calculate_count_c2c_total g.tol _ hL hn hc0
+  | true =>
+    rw [wireVals_eq hu hh1]
+    unfold evalOn
+    rw [if_neg (by simp [h0, h1])]
+    exact calculate_count_c2c_total g.tol _ hL hn (by positivity)
+
 end CBV.Prop
